@@ -345,7 +345,7 @@ def run_g(prog, res, floor=4):
 
 def run_a(prog, res):
     stat = res.stat("C01.a", "every opcode enumerator below SEXP_OP_NUM_OPCODES has a case in the VM dispatch switch; "
-                    "the default arm raises", floor=80)
+                    "the default arm raises", floor=60)
     fn = prog.func("sexp_apply")
     if fn is None:
         raise AnalysisBroken("anchor vanished: sexp_apply")
@@ -430,7 +430,7 @@ def run_a(prog, res):
 
 def run_d(prog, res):
     stat = res.stat("C01.d", "_GETTER/_SETTER rows of opcodes[] designate a sexp-typed field of the union member "
-                    "of their type", floor=6)
+                    "of their type", floor=4)
     orows, _g = tables.opcode_rows(prog)
     trows, _tg = tables.type_rows(prog)
     L = tables.Layout(prog)
@@ -582,4 +582,69 @@ def run_c1(prog, res):
                             "number of times, and no check of `top` against the stack's length dominates it from the "
                             "instruction dispatch: a long argument list writes past the end of the stack object",
                             unit="vm.c"))
+    return stat
+
+
+def run_c2(prog, res):
+    """VM: when the stack cannot be grown (sexp_grow_stack returned 0) the interpreter leaves sexp_apply; it
+    must not go on executing - entering the error handler, or any other instruction, pushes onto a stack that
+    has just been found too small"""
+    from cfg import reach_without, elem_positions
+    stat = res.stat("C01.c2", "VM: the failure edge of every stack-growth attempt leads out of sexp_apply without "
+                    "reaching the instruction dispatch again", floor=2)
+    fn = prog.func("sexp_apply")
+    sw = None
+    for b in fn.blocks.values():
+        if b.term == "SwitchStmt":
+            n = sum(1 for s in b.succs if s is not None and s >= 0 and fn.blocks[s].lk == "case")
+            if sw is None or n > sw[1]:
+                sw = (b, n)
+    if sw is None:
+        raise AnalysisBroken("anchor vanished: the opcode switch of sexp_apply")
+    sw = sw[0]
+    # the exit sequence: the labelled block closest to the function's return that every return passes (end_loop).
+    # What that sequence does (hand a finished child thread back to the scheduler) is not this rule's business.
+    from cfg import dominators
+    dom = dominators(fn)
+    rets = [b.id for b in fn.blocks.values() if any(fn.nodes[e]["k"] == "ret" for e in b.elems)]
+    if not rets:
+        raise AnalysisBroken("anchor vanished: sexp_apply has no return")
+    common = None
+    for r in rets:
+        ds = set(dom.get(r, ())) | {r}
+        common = ds if common is None else (common & ds)
+    labelled = [b for b in common if fn.blocks[b].lk == "label"]
+    if not labelled:
+        raise AnalysisBroken("anchor vanished: no exit label dominates the return of sexp_apply")
+    exit_label = max(labelled, key=lambda b: len(dom.get(b, ())))
+    kills = {(exit_label, 0)}
+    found = 0
+    for b in fn.blocks.values():
+        if b.cond is None or len(b.succs) != 2:
+            continue
+        c = fn.strip(b.cond)
+        neg = False
+        while fn.nodes[c]["k"] == "un" and fn.nodes[c]["o"] == "!":
+            neg = not neg
+            c = fn.strip(fn.nodes[c]["c"][0])
+        if fn.nodes[c]["k"] != "call" or fn.nodes[c].get("o") != "sexp_grow_stack":
+            continue
+        found += 1
+        stat.sites += 1
+        stat.obligations += 1
+        fail = b.succs[0] if neg else b.succs[1]
+        if fail is None or fail < 0 or fail == exit_label:
+            stat.discharged += 1
+            continue
+        if fail == sw.id or reach_without(fn, (fail, 0), (sw.id, 0), kills):
+            res.add(Finding("C01", "C01.c2.continues-on-full-stack", "sexp_apply", "after sexp_grow_stack failed",
+                            fn.where(b.cond), "when sexp_grow_stack fails sexp_apply can go on to execute instructions without "
+                            "first passing its exit sequence (the dispatch is reachable from the failure branch): the next push - "
+                            "for instance the frame of the error handler - is written past the end of the stack object",
+                            unit="vm.c"))
+        else:
+            stat.discharged += 1
+            stat.sample({"site": fn.where(b.cond), "verdict": "failure branch goes to the exit sequence of sexp_apply"})
+    if not found:
+        raise AnalysisBroken("anchor vanished: no test of sexp_grow_stack's result in sexp_apply")
     return stat
